@@ -376,8 +376,15 @@ class Engine:
             av = self.read(env, l, path[:i])
             if av[0] == "e" and av[3]:
                 tagged_before.append((i, av))
+        before = env.get(l) if not path else None
         env = self.write(env, l, path, new, narrow=True)
         ak = ALIAS_BASE - l
+        if not path and l >= 0 and ak in env and new[0] in ("i", "ge") and not env[ak][2]:
+            # l is an unmodified copy of an integer variable (`_5 = offset; if _5 != 0`): what the test says about
+            # the copy holds for the variable
+            sl = env[ak][1]
+            if sl in env and env.get(sl) == before and sl != l:
+                env, state = self.refine(env, state, sl, (), new, where)
         if not path and l >= 0 and ak in env and new[0] == "byte":
             # l is an unmodified copy of a byte inside a look-ahead answer: what is learnt about the copy holds for the answer
             _, sl, sp = env[ak]
@@ -969,6 +976,10 @@ class Engine:
                         env = self.write(env, r[0], r[1], av)
                         if -(1000 + r[0]) in env:
                             del env[-(1000 + r[0])]
+                        if rv["k"] == "use" and av[0] in ("top", "i", "ge") and not r[1] and "c" not in rv["a"] and fn.locals[r[0]].get("prim", "").startswith(("u", "i")) and r[0] not in fn.vars:
+                            src = self.resolve(env, rv["a"].get("cp") or rv["a"].get("mv"))
+                            if src is not None and not src[1] and src[0] != r[0] and src[0] in fn.vars:
+                                env[ALIAS_BASE - r[0]] = ("alias", src[0], ())  # a temporary copy of a named integer variable
                         if rv["k"] == "use" and av[0] == "byte" and not r[1] and "c" not in rv["a"]:
                             src = self.resolve(env, rv["a"].get("cp") or rv["a"].get("mv"))
                             if src is not None and src[0] != r[0]:
